@@ -7,6 +7,10 @@ def rerun(ctx, case_lines):
     return h1common.rerun_h1srv(ctx, case_lines)
 
 
+def rerun_hist(ctx, seq):
+    return h1common.rerun_h1srv_hist(ctx, seq)
+
+
 def run(ctx):
     drv = lib.go_build("h1srv")
     h1common.spec_h1server(ctx)
